@@ -103,4 +103,37 @@ def es5 (X : Input) : Bool := X.NW.all (fun c => decide (stableOf X c ≤ X.cost
 def exact (X : Input) (stable exhaustive : Bool) : Bool :=
   c0a X && (!exhaustive || c0b X) && c1 X && eNeg X && e2 X && e3 X && e4 X && (if stable then es5 X else e5 X)
 
+/-! ### relaxations of the stable condition (pabutools/analysis/priceability_relaxation.py)
+
+`validate_price_system(..., stable=True, relaxation=R)` replaces the cost on the right-hand side of S5 — and only
+there — by `R.get_relaxed_cost(c)`:  `cost = c.cost if relaxation is None else relaxation.get_relaxed_cost(c)`.
+`rc` is that relaxed-cost function; the five shipped shapes are given below as functions of the β the search saved. -/
+
+/-- S5 with the relaxed cost on the right-hand side -/
+def s5R (X : Input) (rc : Pid → Rat) : Bool := X.NW.all (fun c => !(decide (0 < roundCmp (stableOf X c) (rc c))))
+
+/-- `validate_price_system(instance, profile, W, b, pf, stable, exhaustive, relaxation)`; the relaxation is read only when
+    `stable` (the plain condition C5 keeps the true cost, as in the code) -/
+def validateRelaxed (X : Input) (rc : Pid → Rat) (stable exhaustive : Bool) : Bool :=
+  c0a X && (!exhaustive || c0b X) && c1 X && cNeg X && c2 X && c3 X && c4 X && (if stable then s5R X rc else c5 X)
+
+/-- S5 with the relaxed cost, exact comparison -/
+def es5R (X : Input) (rc : Pid → Rat) : Bool := X.NW.all (fun c => decide (stableOf X c ≤ rc c))
+
+/-- `(b, pf)` is a price system for `W` that is stable w.r.t. the relaxed costs `rc` -/
+def exactRelaxed (X : Input) (rc : Pid → Rat) (stable exhaustive : Bool) : Bool :=
+  c0a X && (!exhaustive || c0b X) && c1 X && eNeg X && e2 X && e3 X && e4 X && (if stable then es5R X rc else e5 X)
+
+/-- `MinMul.get_relaxed_cost`: `project.cost * beta` -/
+def rcMinMul (cost : Pid → Rat) (β : Rat) : Pid → Rat := fun c => cost c * β
+
+/-- `MinAdd.get_relaxed_cost`: `project.cost + beta` -/
+def rcMinAdd (cost : Pid → Rat) (β : Rat) : Pid → Rat := fun c => cost c + β
+
+/-- `MinAddVector.get_relaxed_cost` / `MinAddVectorPositive.get_relaxed_cost`: `project.cost + beta[project]` -/
+def rcMinAddVector (cost : Pid → Rat) (βv : Pid → Rat) : Pid → Rat := fun c => cost c + βv c
+
+/-- `MinAddOffset.get_relaxed_cost`: `project.cost + beta_global + beta[project]` -/
+def rcMinAddOffset (cost : Pid → Rat) (β : Rat) (βv : Pid → Rat) : Pid → Rat := fun c => cost c + β + βv c
+
 end Pabu.Price
